@@ -1,14 +1,243 @@
 /-
-Layer 7b: model of `_processor.py::Processor` (placeholder; filled in below).
+Layer 7b: model of `_processor.py::Processor.process`, with the two abstract hooks instantiated
+the way the harness's real processor instantiates them: a hook evaluates its source relation in
+the source's own engine only (iteration: `execute` + iterate; SQL: compile + run) and wraps the
+rows as a payload of the destination engine.
 -/
 import DafRel.Model.Apply
 import DafRel.Model.IterExec
 import DafRel.Model.Sql
+import DafRel.Model.Codec
 
 namespace DafRel
 
-def processTop (_σ : Leaves) (st : ExecState) (sq : SqlState) (_t : Rel) :
-    Except Err (Res × ExecState × SqlState × List String) :=
-  .ok (.same, st, sq, [])
+/-- A payload of either engine family. -/
+inductive AnyPayload where
+  | iter (it : Iterable)
+  | sql (p : SqlPayload)
+deriving Inhabited
+
+structure ProcState where
+  st : ExecState
+  sq : SqlState
+  hooks : List String := []
+  /-- temporary allocation ids for marker relations created during processing -/
+  nextTemp : Nat := 9000000
+  /-- every SQL evaluation inside a hook was determinate -/
+  det : Bool := true
+deriving Inhabited
+
+abbrev ProcM := StateT ProcState (Except Err)
+
+def tempBase : Nat := 9000000
+
+namespace ProcState
+
+def store (s : ProcState) : Store := s.st.store ++ s.sq.payloads.map (fun p => (p.1, p.1))
+
+def payloadOf (s : ProcState) (r : Rel) : Option AnyPayload :=
+  match r with
+  | .leaf oid _ _ _ _ _ p _ =>
+    if !p then none
+    else match s.sq.payload oid with
+      | some q => some (.sql q)
+      | none => some (.iter (.leafRef oid))
+  | .unary .. => none
+  | .binary .. => none
+  | _ =>
+    match s.st.payload r.oid with
+    | some it => some (.iter it)
+    | none => (s.sq.payload r.oid).map AnyPayload.sql
+
+def attach (s : ProcState) (oid : Nat) (p : AnyPayload) : ProcState :=
+  match p with
+  | .iter it => { s with st := { s.st with payloads := (oid, it) :: s.st.payloads } }
+  | .sql q => { s with sq := { s.sq with payloads := (oid, q) :: s.sq.payloads } }
+
+end ProcState
+
+def showPay (s : ProcState) : Nat → Bool := fun oid =>
+  (s.st.payload oid).isSome || s.sq.hasPayload oid
+
+/-- `engine.get_join_identity_payload()` / `get_doomed_payload(columns)`. -/
+def trivialPayload (e : Engine) (joinIdentity : Bool) : ProcM AnyPayload := do
+  match e.kind with
+  | .iter => return .iter (.mapping [] (if joinIdentity then [Row.empty] else []))
+  | .sql =>
+    let s ← get
+    let idx := s.sq.tables.length
+    set { s with sq := { s.sq with tables := s.sq.tables ++ [if joinIdentity then [Row.empty] else []] } }
+    return .sql { frm := .table s!"trivial_{idx}" 0 idx, wh := if joinIdentity then [] else [.lit false] }
+
+/-- Evaluate a relation in its own engine only (what a hook is allowed to do). -/
+def evalSingle (σ : Leaves) (r : Rel) : ProcM (List Row) := do
+  let s ← get
+  match r.engine.kind with
+  | .iter =>
+    match (exec σ r.engine r).run { s.st with log := [] } with
+    | .error e => throw e
+    | .ok (it, st') =>
+      match it.rows σ with
+      | .error e => throw e
+      | .ok rows =>
+        set { s with st := { st' with log := [] } }
+        return rows
+  | .sql =>
+    match conform s.store defaultFuel r with
+    | .error e => throw e
+    | .ok c =>
+      match compileSelect s.sq defaultFuel (c.get r) 0 with
+      | .error e => throw e
+      | .ok (q, _) =>
+        if q.hasDup then throw .unspecified
+        else if !q.accepts then throw .sqlError            -- the database would reject the query
+        else
+          let out := Query.eval s.sq.tables q
+          set { s with det := s.det && out.det }
+          return out.rows
+
+/-- Wrap rows as a payload of the engine `e` (a row sequence, or a new table). -/
+def wrapRows (e : Engine) (cols : Cols) (rows : List Row) (tag : String) : ProcM AnyPayload := do
+  match e.kind with
+  | .iter => return .iter (.seq rows)
+  | .sql =>
+    let s ← get
+    let idx := s.sq.tables.length
+    let name := s!"{tag}{idx}"
+    set { s with sq := { s.sq with tables := s.sq.tables ++ [rows] } }
+    return .sql { frm := .table name 0 idx, avail := (cols.map (fun t => (t, SqlExpr.col name t))) }
+
+def hookTransfer (σ : Leaves) (source : Rel) (dest : Engine) (matAs : Option String) : ProcM AnyPayload := do
+  modify (fun s => { s with hooks := s.hooks ++
+    [s!"<transfer {source.show (showPay s)} e{dest.id} {matAs.getD "-"} triv={showBool source.isTrivial}>"] })
+  let rows ← evalSingle σ source
+  wrapRows dest source.columns rows "xfer"
+
+def hookMaterialize (σ : Leaves) (target : Rel) (name : String) : ProcM AnyPayload := do
+  modify (fun s => { s with hooks := s.hooks ++ [s!"<materialize {target.show (showPay s)} {name} triv={showBool target.isTrivial}>"] })
+  let rows ← evalSingle σ target
+  wrapRows target.engine target.columns rows "mat"
+
+def freshTemp : ProcM Nat := do
+  let s ← get
+  set { s with nextTemp := s.nextTemp + 1 }
+  return s.nextTemp
+
+/-- Give the root a temporary id if a pure model function just created it (oid = 0). -/
+def tempRoot (r : Rel) : ProcM Rel := do
+  match r with
+  | .mat 0 n t => return .mat (← freshTemp) n t
+  | .transfer 0 d t => return .transfer (← freshTemp) d t
+  | .select 0 a b c d e f g h => return .select (← freshTemp) a b c d e f g h
+  | _ => return r
+
+/-- `Select.reapply(target)`. -/
+def reapplySelect (target : Res) (_orig : Rel) : ProcM Res := do
+  match target with
+  | .same => return .same
+  | .new t =>
+    let s ← get
+    match conformIn s.store defaultFuel t.engine.kind t with
+    | .error e => throw e
+    | .ok c =>
+      let r := c.get t
+      if r.isSelect then return .new r else throw .assertion
+
+/-- `Processor._process_recursive(original, materialize_as)`. -/
+def processRec (σ : Leaves) : Nat → Rel → Option String → ProcM (Res × Bool)
+  | 0, _, _ => throw .fuel
+  | fuel+1, orig, matAs => do
+    if ((← get).payloadOf orig).isSome then return (.same, true)
+    match orig with
+    | .transfer _ dest target =>
+      let (newTarget, payload) ←
+        if orig.isJoinIdentity then do
+          pure (Res.same, ← trivialPayload dest true)
+        else if orig.maxRows == some 0 then do
+          pure (Res.same, ← trivialPayload dest false)
+        else do
+          let (nt, _) ← processRec σ fuel target none
+          let p ← hookTransfer σ (nt.get target) dest matAs
+          pure (nt, p)
+      let oid ← freshTemp
+      modify (fun s => s.attach oid payload)
+      return (.new (.transfer oid dest (newTarget.get target)), matAs.isSome)
+    | .mat oid name target =>
+      let (nt, persisted) ← processRec σ fuel target (some name)
+      let newTarget := nt.get target
+      let result : Res ←
+        match nt with
+        | .same => pure Res.same
+        | .new _ => do
+          match materialize (← get).store defaultFuel newTarget name with
+          | .error e => throw e
+          | .ok r =>
+            let res ← tempRoot (r.get newTarget)
+            pure (Res.new res)
+      match result with
+      | .new res =>
+        if let some p := (← get).payloadOf res then
+          -- simplified away (perhaps a materialization of a leaf now)
+          modify (fun s => s.attach oid p)
+          return (.new res, true)
+      | .same => pure ()
+      -- `payload = new_target.payload` may be `None` (e.g. a payload-less `Select` wrapper)
+      let payload : Option AnyPayload ←
+        if persisted then pure ((← get).payloadOf newTarget)
+        else if orig.isJoinIdentity then do pure (some (← trivialPayload target.engine true))
+        else if orig.maxRows == some 0 then do pure (some (← trivialPayload target.engine false))
+        else do pure (some (← hookMaterialize σ newTarget name))
+      if let some p := payload then
+        modify (fun s => s.attach oid p)
+      match result with
+      | .same => return (.same, true)
+      | .new res =>
+        -- `result.attach_payload(payload)`: the result must be a payload-less marker relation
+        match res with
+        | .mat o .. | .transfer o .. | .select o .. =>
+          if let some p := payload then
+            modify (fun s => s.attach o p)
+          return (.new res, true)
+        | _ => throw .type
+    | .select .. =>
+      let target := match orig with
+        | .select _ _ _ _ _ _ _ _ t => t
+        | r => r
+      let (nt, persisted) ← processRec σ fuel target matAs
+      let r ← reapplySelect nt orig
+      return (r, persisted)
+    | .unary op target _ =>
+      let (nt, _) ← processRec σ fuel target none
+      match nt with
+      | .same => return (.same, false)
+      | .new t' =>
+        match applyOp (← get).store defaultFuel (.u op) t' {} with
+        | .error e => throw e
+        | .ok r => return (.new (r.get t'), false)
+    | .binary op l r _ =>
+      let (nl, lp) ← processRec σ fuel l none
+      let (nr, rp) ← processRec σ fuel r none
+      let l' := nl.get l
+      let r' := nr.get r
+      let isChain := match op with
+        | .chain => true
+        | _ => false
+      if isChain && l'.maxRows == some 0 then return (.new r', rp)
+      else if isChain && r'.maxRows == some 0 then return (.new l', lp)
+      else
+        match nl, nr with
+        | .same, .same => return (.same, false)
+        | _, _ =>
+          match binaryApply (← get).store defaultFuel op l' r' with
+          | .error e => throw e
+          | .ok b => return (.new (b.get l' r'), false)
+    | .leaf .. => throw .assertion        -- a leaf without payload: the match is not exhaustive
+
+/-- `Processor.process(relation)`. -/
+def processTop (σ : Leaves) (st : ExecState) (sq : SqlState) (t : Rel) :
+    Except Err (Res × ProcState) :=
+  match (processRec σ defaultFuel t none).run { st := st, sq := sq } with
+  | .error e => .error e
+  | .ok ((r, _), s) => .ok (r, s)
 
 end DafRel
